@@ -1431,9 +1431,18 @@ class C14(Prop):
         for nm in (b"\x01x\xc0\x04\xc0\x06\x01y\x00", b"\xc0\x02\xc0\x04\x01z\x00", b"\x01a\xc0\x04\x01b\xc0\x08\x01c\x00"):
             for th in (1, 16):
                 hist.append("R %d %d D DomainName %s" % (max(reps, 48), th, G.hexs(nm)))
+        # small values encoded on threads that encode LARGER values of the same kinds in between (see the harness)
+        for v in (('RR', 64, ('N', [b"a"]), 1, 1, ('SVCB', 1, ('N', []), [('MAND', 1), ('ALPN', b"h2")])),
+                  ('RR', 65, ('N', [b"a"]), 1, 1, ('SVCB', 1, ('N', []), [('MAND', 3, 1), ('ALPN', b"h2"), ('PORT', 1)])),
+                  ('RR', 41, ('N', []), 0, 0, ('OPT', 512, 0, 0, False, [('PAD', 1)])),
+                  ('RR', 42, ('N', [b"a"]), 1, 5, ('APL', [('I', 1, 8, False, bytes([10, 0, 0, 0]))])),
+                  ('RR', 16, ('N', [b"a"]), 1, 5, ('G', [('L', [b"x"])])),
+                  ('RR', 2, ('N', [b"org"]), 1, 5, ('G', [('N', [b"example", b"org"])]))):
+            for th in (1, 4, 16):
+                hist.append("R %d %d E RR %s" % (max(reps, 48), th, G.canon(v)))
         return [("encode-repeated", enc), ("encode-name-heavy-16-threads", heavy), ("decode-repeated", dec),
                 ("encode-straddling-0x3FFF-16-threads", edge), ("encode-hundreds-of-names-16-threads", many),
-                ("encode-names-differing-in-non-ascii-case", fold), ("decode-pointer-chains-after-rejected-inputs", hist)]
+                ("encode-names-differing-in-non-ascii-case", fold), ("small-inputs-after-other-inputs-on-the-same-thread", hist)]
 
     def view(self, case, line):
         # determinism is the property: compare how many distinct results there were and whether the input
